@@ -49,7 +49,7 @@ func (s *c24Sys) wanting() map[string]bool {
 // step performs one symbolic event; np is the number of openers in play.
 func (s *c24Sys) step(np int) { s.stepN(np, 5) }
 
-// stepN: nkinds = 4 leaves out the answering session (it does not touch the listener's tracker).
+// stepN: nkinds = 4 leaves out the answering session.
 func (s *c24Sys) stepN(np, nkinds int) {
 	switch rt.Choose("event", nkinds) {
 	case 0: // L starts (another) listen call; an older one is replaced
@@ -109,7 +109,7 @@ func VerifC24Listen() {
 	s := c24New()
 	n := rt.IntRange("events", 1, k)
 	for i := 0; i < n; i++ {
-		s.stepN(np, 4)
+		s.stepN(np, 5)
 		if i == n-1 || rt.Choose("settle", 2) == 1 {
 			rt.Quiesce()
 			if l := s.activeListen(); l != nil {
@@ -202,5 +202,45 @@ func VerifC25Unique() {
 	}
 	rt.Assert("no per-peer state is left when all calls have ended", len(s.w.srv.peers) == 0)
 	rt.Assert("no per-session state is left when all calls have ended", len(s.w.srv.sessions) == 0)
+	rt.Reach("end")
+}
+
+// VerifC24SlowListener: the listen stream is slow (one of its first two Sends blocks) while two peers
+// open and close sessions; once the stream drains, the announced set still converges to the peers that
+// hold an open session request.
+func VerifC24SlowListener() {
+	rt.SchedBound(0, false)
+	rt.MapOrder(true)
+	s := c24New()
+	l := s.w.listen("listen", s.L)
+	l.slowAt = 1 + rt.Choose("slowSendAt", 2)
+	s.listens = append(s.listens, l)
+	rt.Quiesce()
+	for i := 0; i < 3; i++ {
+		p := rt.Choose("who", 2)
+		if rt.Choose("what", 2) == 0 {
+			if len(s.sess[p]) > 0 {
+				rt.Quiesce()
+			}
+			s.sess[p] = append(s.sess[p], s.w.open("session", s.P[p], s.L))
+		} else {
+			for k := len(s.sess[p]) - 1; k >= 0; k-- {
+				if !s.sess[p][k].done {
+					s.sess[p][k].cancel()
+					break
+				}
+			}
+		}
+		rt.Quiesce()
+	}
+	close(l.gate)
+	rt.Quiesce()
+	got, want := l.announced(), s.wanting()
+	for p := range want {
+		rt.Assert("after the slow stream drained, every peer holding an open session request is announced", got[p])
+	}
+	for p := range got {
+		rt.Assert("after the slow stream drained, only peers holding an open session request remain announced", want[p])
+	}
 	rt.Reach("end")
 }
